@@ -449,6 +449,8 @@ def c04(ctx, api):
     st, summ = api['run_tlc_to_harness'](ctx, 'escape', 'GenEscape', cfg(constants={'Emit': 'TRUE', 'Prop': '"C04"', 'Wide': tb(thorough)}), timeout=1500)
     acc.add('GenEscape: \\uXXXX with every four-character body over %d hex digits and near-misses (+ - g _ x blank) in 5 literal positions; 21 control / separator '
             'characters raw inside each literal kind at 3 positions; every one-character escape' % (13 if thorough else 8), st, summ)
+    st, summ = api['run_tlc_to_harness'](ctx, 'probe', 'GenProbe', cfg(constants={'Emit': 'TRUE', 'Prop': '"C04"'}), timeout=1500, harness_args=['-timeout', '30s'])
+    acc.add('GenProbe: single inputs with a pinned outcome from the audit round (recorded findings, re-observed on every run)', st, summ)
     return acc.result('every concatenation of at most k lexemes of each alphabet is compiled by the real library (the harness '
                       'enumerates them itself) and compared with the static outcome of the specification, which TLC computed for '
                       'the same enumeration (TLC prints only the texts that are not plain syntax errors); a case is non-trivial '
@@ -592,6 +594,8 @@ def c08(ctx, api):
     st, summ = api['run_tlc_to_harness'](ctx, 'escape', 'GenEscape', cfg(constants={'Emit': 'TRUE', 'Prop': '"C08"', 'Wide': tb(thorough)}), timeout=1500)
     acc.add('GenEscape: \\uXXXX with every four-character body over %d hex digits and near-misses (+ - g _ x blank) in 5 literal positions; 21 control / separator '
             'characters raw inside each literal kind at 3 positions; every one-character escape' % (13 if thorough else 8), st, summ)
+    st, summ = api['run_tlc_to_harness'](ctx, 'probe', 'GenProbe', cfg(constants={'Emit': 'TRUE', 'Prop': '"C08"'}), timeout=1500, harness_args=['-timeout', '30s'])
+    acc.add('GenProbe: single inputs with a pinned outcome from the audit round (recorded findings, re-observed on every run)', st, summ)
     return acc.result(RULE_PINNED + '; on every failing call the harness also requires a nil result, exactly one matching exported '
                       'category under errors.Is, and that the error formats',
                       extra={'model_checks': ['SingleCategory', 'StaticIgnoresDoc', 'StaticAtCompile']})
